@@ -1677,7 +1677,7 @@ func runService(run *ev.Run, c int, mode string) {
 	for _, dn := range []string{rig.BondDenom, "tka", "tkb"} {
 		bal = bal.Add(sdk.NewCoin(dn, toInt(pow2(120))))
 	}
-	opts := rig.Options{Seed: fmt.Sprintf("sv-%d-%d", run.Seed, c), NumAccounts: 11, Balances: bal, InflationOff: true, GenesisMutator: w.Genesis, InitialHeight: boundaryHeight(c / 3)}
+	opts := rig.Options{Seed: fmt.Sprintf("sv-%d-%d", run.Seed, c), NumAccounts: 11, Balances: bal, InflationOff: true, GenesisMutator: w.Genesis, InitialHeight: boundaryHeight(c / 3), SubSecond: c%2 == 1}
 	if cfg.Oracle {
 		// the oracle's price service compares the feed value's block time with the host clock (lead D1); a chain clock
 		// ahead of every plausible host clock keeps the feed "fresh" under that code, and block-time steps below keep
